@@ -525,7 +525,7 @@ impl<'a> World<'a> {
                 let tag = data::ed_key(self.plan.seed, 900 + c as u64).public().to_peer_id();
                 // callers are told apart by a tag in `expected_holders`; when no other caller's command is still
                 // on its way to the driver, every other caller is sent without one (the usual reader names no holder)
-                let untagged = self.callers.iter().all(|o| o.cmd_handled || o.cancelled) && (self.plan.seed.rotate_right(c as u32) & 1) == 1;
+                let untagged = self.callers.iter().all(|o| o.cmd_handled) && (self.plan.seed.rotate_right(c as u32) & 1) == 1;
                 let is_register = matches!(target.map(|t| &self.versions[t as usize].kind), Some(VKind::Reg { .. }));
                 let cfg = GetRecordCfg {
                     get_quorum: q,
